@@ -28,6 +28,7 @@ VALUESETS = [(F(0), F(0), F(0)), (F(1), F(-2), F(3)), (F(-1, 2), F(5, 3), F(7))]
 def required_cells(tier):
     req = {}
     req["shape:3x4/consistent"] = 100
+    req["input:identical-rows-share-one-list"] = 50
     for r, c, _ in (SHAPES_Q if tier == "quick" else SHAPES_T):
         for st in ("consistent", "inconsistent"):
             req["shape:%dx%d/%s" % (r, c, st)] = 2
@@ -48,6 +49,8 @@ def cases(rng, budget, widx, nworkers, tier):
             if idx % nworkers != widx:
                 continue
             yield {"m": [list(flat[i * c:(i + 1) * c]) for i in range(r)], "t": "Fraction"}
+            if r > 1 and any(flat[i * c:(i + 1) * c] == flat[j * c:(j + 1) * c] for i in range(r) for j in range(i)):
+                yield {"m": [list(flat[i * c:(i + 1) * c]) for i in range(r)], "t": "Fraction", "alias": True}
             if idx % 3 == 0:
                 yield {"m": [list(flat[i * c:(i + 1) * c]) for i in range(r)], "t": ("int", "float")[(idx // 3) % 2]}
     # sampled 3x4 systems, half of them with zero columns forced (where pivots have to skip columns)
@@ -58,6 +61,16 @@ def cases(rng, budget, widx, nworkers, tier):
                 for row in m:
                     row[c] = 0
         yield {"m": m, "t": rng.choice(("Fraction", "int", "float")), "sampled": True}
+
+
+def _alias(rows):
+    """identical rows become the same list object (callers often write [[1, 1, 2]] * 2)"""
+    seen = {}
+    out = []
+    for r in rows:
+        key = tuple(r)
+        out.append(seen.setdefault(key, r))
+    return out
 
 
 def _conv(m, t):
@@ -110,7 +123,12 @@ def judge(case):
         mu.cell("shape:%s/rank-deficient-consistent" % shape)
     prof = _profile(m, n)
     nontrivial = any(any(x != 0 for x in row) for row in m)
-    sol, exc, _ = M.call(G.solve, _conv(m, t), pure=False)
+    rows = _conv(m, t)
+    if case.get("alias"):
+        rows = _alias(rows)
+        if len(set(map(id, rows))) < len(rows):
+            mu.cell("input:identical-rows-share-one-list")
+    sol, exc, _ = M.call(G.solve, rows, pure=False)
     if exc is not None:
         mu.fail("solve-raises-%s/%s" % (M.classify_exc(exc), prof), "solve(%r) raised %s: %s" % (m, type(exc).__name__, exc))
         return mu.result(nontrivial=nontrivial)
@@ -162,4 +180,4 @@ def judge(case):
 
 
 def describe(case):
-    return {"matrix": case["m"], "entry_type": case["t"]}
+    return {"matrix": case["m"], "entry_type": case["t"], "identical_rows_aliased": bool(case.get("alias"))}
